@@ -113,6 +113,22 @@ def check_decomposition(res, nodes, links, desc, oracle_cache=None):
         VIA_FILE["on"] = "gz" if VIA_FILE["n"] % 3 == 0 else "plain"
     case = {"nodes": list(nodes), "links": [list(l) for l in links], "via_file": VIA_FILE["on"]}
     G = build_gfa(nodes, links)
+    if VIA_FILE["on"]:
+        # the loaded graph's adjacency, side by side, against the links of the file (overlaps left aside)
+        want = {(n, sd): set() for n in nodes for sd in (0, 1)}
+        for a, ao, b, bo in links:
+            (a_, sa), (b_, sb) = rgfa.side_pair(a, ao, b, bo)
+            want[(a_, sa)].add((b_, sb))
+            want[(b_, sb)].add((a_, sa))
+        got = {}
+        for n in nodes:
+            nd = G.nodes.get(n)
+            got[(n, 0)] = {(m, ms) for m, ms, ov in nd.start} if nd is not None else None
+            got[(n, 1)] = {(m, ms) for m, ms, ov in nd.end} if nd is not None else None
+        if got != want:
+            k = next(x for x in want if got.get(x) != want[x])
+            res.fail("C15/loaded-adjacency", f"{desc}: side {k} of the loaded graph lists {sorted(got[k]) if got[k] is not None else None}, the file's links give {sorted(want[k])}", case)
+            return
     # components
     res.evaluations += 1
     try:
@@ -285,6 +301,8 @@ def ops_for(nodes):
             out.append(("add_node", n))  # adding a node that exists is documented as a no-op (warning)
         if n.isdigit():
             out.append(("add_node_int", n))  # the same id passed as an int, present or not
+        if n in nodes and n == NAMES[1]:
+            out.append(("add_node_seq", n))  # an existing (sequence-less) node added again, this time with a sequence
     present = sorted(nodes)
     for a in present:
         for b in present:
@@ -340,6 +358,8 @@ def apply_real(G, op):
         G.add_node(op[1])
     elif op[0] == "add_node_int":
         G.add_node(int(op[1]))
+    elif op[0] == "add_node_seq":
+        G.add_node(op[1], seq="ACGT")
     elif op[0] == "add_edge":
         # '+ +' links are added with an optional field (as links read from a file are), the others without
         if (op[2], op[4]) == ("+", "+"):
@@ -354,7 +374,7 @@ def apply_model(nodes, links, op):
     nodes, links = set(nodes), set(links)
     if op[0].startswith("obs_"):
         return frozenset(nodes), frozenset(links)
-    if op[0] in ("add_node", "add_node_int"):
+    if op[0] in ("add_node", "add_node_int", "add_node_seq"):
         nodes.add(op[1])
     elif op[0] == "add_edge":
         links.add(rgfa.side_pair(op[1], op[2], op[3], op[4]))
